@@ -242,12 +242,23 @@ def run_block_chain(ctx):
         if rng.random() < 0.3: bc = br
         nblk = rng.choice([0, 1, rng.randint(1, nbr * nbc + 2)])
         blocks = [(rng.randrange(nbr), rng.randrange(nbc), [Fraction(rng.randint(1, 9)) * rng.choice([1, -1]) for _ in range(br * bc)]) for _ in range(nblk)]
+        if br * bc >= 2:
+            # blocks whose entries cancel (sum 0, all entries non-zero), and duplicate positions that merge into such a block
+            for q, (I, J, v) in enumerate(blocks):
+                if rng.random() < 0.25:
+                    w = list(v); w[-1] = -sum(w[:-1])
+                    if w[-1] != 0: blocks[q] = (I, J, w)
+            if blocks and rng.random() < 0.3:
+                (I, J, v) = rng.choice(blocks)
+                w = [Fraction(rng.randint(1, 9)) for _ in v]; w[-1] = -(sum(v) + sum(w[:-1]))
+                blocks.append((I, J, w))
         fmt = rng.choice(["bcoo", "bsr", "bsc"]); nops = rng.choice([1, 1, 2, 3])
         ops = []
         for q in range(nops):
             o = rng.choice(BOPS)
             if o == "to_csr" and q != nops - 1: o = "copy"
             ops.append(o)
+        nblk = len(blocks)
         toks = ["bk%d" % k, "bchain", fmt, nbr, nbc, br, bc, nblk]
         for (I, J, v) in blocks: toks += [I, J] + [nums.tok_num(z) for z in v]
         toks += [len(ops)] + ops
